@@ -17,6 +17,7 @@ type specOpts struct {
 	withRec    bool // insert a recording decorator under every layer
 	honestFrag bool // only generate fragmenting MTUs whose part count fits the header field
 	errClose   bool // sometimes put a transport beneath whose Close reports an error
+	smallQueues bool // include very short receive queues (buffers are recycled after a few messages)
 }
 
 var muxKinds = []string{"string", "uint16", "uint32", "uint64", "varint"}
@@ -63,7 +64,11 @@ func genSpec(t *rapid.T, o specOpts) stack.Spec {
 			mtus = []int{64, 100, 256, 256, 1000, 1500, 4096}
 		}
 		s.BaseMTU = rapid.SampledFrom(mtus).Draw(t, "baseMTU")
-		s.QueueLen = rapid.SampledFrom([]int{4096, 1024, 256}).Draw(t, "queueLen")
+		qs := []int{4096, 1024, 256}
+		if o.smallQueues {
+			qs = []int{4096, 256, 16, 4, 2}
+		}
+		s.QueueLen = rapid.SampledFrom(qs).Draw(t, "queueLen")
 		cur = s.BaseMTU
 		hasAsk, hasSec = true, true
 	}
